@@ -471,7 +471,7 @@ def main(argv):
                        'Driver/C14.lean'],
         harness_name='c14', harness_sources=[os.path.join(C.VERIF, 'harness', 'c14.cpp')],
         gen_ops=gen_ops, monitor=monitor, nontrivial=nontrivial,
-        n_quick=20000, n_thorough=300000,
+        n_quick=20000, n_thorough=1200000,
         trusted_base=[
             'Lean 4.33 kernel (+ Mathlib tactics in proof files; axioms: propext, Classical.choice, Quot.sound)',
             'gen/cxxparse.py + gen/gen_c14.py (translator: triangle tests, scatter targets, index offsets, loop '
